@@ -106,11 +106,39 @@ class CFG(object):
         if t is not None and t["k"] in ("SwitchStmt", "CXXTryStmt", "IndirectGotoStmt"):
             return None
         cond = blk.tcond
-        # `a && b` as the condition of an if/while: this block evaluates the last operand
-        while (cond["k"] == "BinaryOperator" and cond.get("op") in ("&&", "||")
-               and (t is None or t["i"] != cond["i"])):
-            cond = cond["c"][1]
         return cond, blk.succs[0], blk.succs[1]
+
+    def branch_conds(self, b):
+        """Condition expressions whose truth value equals the direction of the branch out of block b.
+        For `if (a && b)` clang either branches on the last operand directly (the block evaluates
+        `b`; earlier operands were decided on earlier edges) or joins the value of the whole
+        expression first.  The whole expression is always valid; in the direct form the last operand
+        is valid too (all earlier operands are then known to be true for &&, false for ||)."""
+        br = self.branch(b)
+        if br is None:
+            return []
+        blk = self.blocks[b]
+        cond, t = br[0], blk.term
+        out = [cond]
+        cur = cond
+        ids = {e["i"] for e in blk.elems}
+        while cur is not None and cur["k"] == "BinaryOperator" and cur.get("op") in ("&&", "||") \
+                and (t is None or t["i"] != cur["i"]):
+            last = cur["c"][1]
+            inner = last
+            while inner is not None and inner["k"] in ("CStyleCastExpr", "CXXStaticCastExpr", "CXXFunctionalCastExpr"):
+                inner = inner["c"][0]
+            if inner is None or inner["i"] not in ids:
+                break
+            out.append(last)
+            cur = inner
+        return out
+
+    def edge_facts(self, f, b, idx, extra=None):
+        facts = set()
+        for c in self.branch_conds(b):
+            facts |= cond_facts(f, c, idx == 0, extra)
+        return facts
 
     # -- dominators (simple iterative)
     def dominators(self):
@@ -239,7 +267,36 @@ def ptr_key(f, n):
         return ptr_key(f, n["c"][0])                      # copy of a smart pointer
     if k == "CallExpr" and not call_args(n):
         return expr_str(f, n)
+    if k == "CallExpr":
+        d = f.decl(n)
+        # the repo's is_xxx(p) helpers are pure dynamic-cast wrappers: same argument, same result
+        if d is not None and d["n"].startswith("is_") and all(ptr_key(f, a) or pure_expr(f, a) for a in call_args(n)):
+            return expr_str(f, n)
     return None
+
+
+def pure_expr(f, n, depth=0):
+    """expression built only from variables, literals, const getters and subscripts"""
+    n = strip_casts(n)
+    if n is None:
+        return True
+    if depth > 6:
+        return False
+    k = n["k"]
+    c = n.get("c", [])
+    if k in ("DeclRefExpr", "IntegerLiteral", "StringLiteral", "CXXThisExpr", "CXXBoolLiteralExpr"):
+        return True
+    if k == "MemberExpr":
+        return all(pure_expr(f, x, depth + 1) for x in c)
+    if k == "CXXMemberCallExpr":
+        d = f.decl(n)
+        return d is not None and (bool(d.get("const")) or d["n"].startswith(("get_", "is_", "has_"))) \
+            and all(pure_expr(f, x, depth + 1) for x in c)
+    if k == "CXXOperatorCallExpr" and n.get("op") in ("->", "*", "[]"):
+        return all(pure_expr(f, x, depth + 1) for x in c[1:])
+    if k in ("CXXConstructExpr",) and len(c) == 1:
+        return pure_expr(f, c[0], depth + 1)
+    return False
 
 
 def cond_facts(f, cond, truth, extra=None):
@@ -253,6 +310,10 @@ def cond_facts(f, cond, truth, extra=None):
     c = n.get("c", [])
     if extra:
         out |= set(extra(f, n, truth) or ())
+    if k == "DeclRefExpr":
+        init = bool_local_init(f, n)
+        if init is not None:
+            return out | cond_facts(f, init, truth, extra)
     if k == "UnaryOperator" and n.get("op") == "!":
         return out | cond_facts(f, c[0], not truth, extra)
     if k == "CXXOperatorCallExpr" and n.get("op") == "!" and len(c) == 2:
@@ -302,6 +363,37 @@ def cond_facts(f, cond, truth, extra=None):
     return out
 
 
+def bool_local_init(f, ref):
+    """init expression of a local `bool` that is declared with an initialiser and never assigned
+    afterwards (the `bool __abg_cond__ = bool(cond)` of ABG_ASSERT, `bool ok = p && q;`)"""
+    d = f.decl(ref)
+    if d is None or d["k"] != "Var" or d.get("st") != "local":
+        return None
+    t = f.unit.type(d.get("t"))
+    if t is None or t["c"] not in ("bool", "const bool"):
+        return None
+    cache = getattr(f, "_boolinit", None)
+    if cache is None:
+        cache = {}
+        assigned = set()
+        for x in f.nodes():
+            if x["k"] == "VarDecl" and x.get("c") and x["c"][0] is not None:
+                cache[x.get("d")] = x["c"][0]
+            elif x["k"] in ("BinaryOperator", "CompoundAssignOperator") and x.get("op", "").endswith("=") \
+                    and x.get("op") not in ("==", "!=", "<=", ">="):
+                l = strip_casts(x["c"][0])
+                if l is not None and l["k"] == "DeclRefExpr":
+                    assigned.add(l.get("d"))
+            elif x["k"] == "UnaryOperator" and x.get("op") in ("++", "--", "&"):
+                l = strip_casts(x["c"][0])
+                if l is not None and l["k"] == "DeclRefExpr":
+                    assigned.add(l.get("d"))
+        for a in assigned:
+            cache.pop(a, None)
+        f._boolinit = cache
+    return cache.get(ref.get("d"))
+
+
 def assigned_key(f, n):
     """If element n (re)defines a pointer-like lvalue, return its key."""
     k = n["k"]
@@ -348,7 +440,19 @@ class NullFlow(object):
     def transfer(self, st, n, blk):
         key = assigned_key(self.f, n)
         if key is not None:
+            # x = E where E is already known non-null (check-then-recompute idiom)
+            rhs = None
+            if n["k"] == "VarDecl" and n.get("c"):
+                rhs = n["c"][0]
+            elif n["k"] == "BinaryOperator" and n.get("op") == "=":
+                rhs = n["c"][1]
+            elif n["k"] == "CXXOperatorCallExpr" and n.get("op") == "=" and len(n["c"]) == 3:
+                rhs = n["c"][2]
+            rk = ptr_key(self.f, rhs) if rhs is not None else None
+            keep = rk is not None and rk != key and ("nn", rk) in st
             st = kill(st, key)
+            if keep:
+                st = st | frozenset([("nn", key)])
         if self.gen:
             g = self.gen(self.f, n)
             if g:
@@ -356,11 +460,9 @@ class NullFlow(object):
         return st
 
     def edge(self, st, blk, idx):
-        br = self.cfg.branch(blk.id)
-        if br is None:
+        if self.cfg.branch(blk.id) is None:
             return st
-        cond, _, _ = br
-        facts = cond_facts(self.f, cond, idx == 0, self.extra_cond)
+        facts = self.cfg.edge_facts(self.f, blk.id, idx, self.extra_cond)
         if not facts:
             return st
         # contradiction => infeasible edge
